@@ -147,7 +147,9 @@ func Check(before *world.World, ev world.Event, pass *world.Pass, after *world.W
 		if got := previousNames(r.Post); strings.Join(got, ",") != strings.Join(names, ",") {
 			bad("previous-incomplete", "%s: previous=%v but the deployment's existing ObjectSets are %v", r, got, names)
 		}
-		if matched {
+		// (after a genuine name clash bumped the collision counter the hash of an unchanged template
+		// changes too; the statement does not speak about that case)
+		if matched && collisionCount(od) == 0 {
 			bad("create-although-matched", "%s creates a revision although the newest ObjectSet already matches the template", r)
 		}
 	}
@@ -170,6 +172,21 @@ func Check(before *world.World, ev world.Event, pass *world.Pass, after *world.W
 		}
 		odID := world.IdentOf(odKey, od)
 		legit := osw.Lifecycle(conf) != "Archived" && world.ControlledBy(conf, false, odID) && osw.TemplateOf(conf) == tmpl && osw.StatusRevision(conf) >= latest
+		// the deployment's own ObjectSet for this very template, created after everything the pass
+		// listed (the create-not-yet-visible window): not a name clash at all - counting it as one
+		// makes the next pass create a second ObjectSet for the same template
+		if own := osw.Lifecycle(conf) != "Archived" && world.ControlledBy(conf, false, odID) && osw.TemplateOf(conf) == tmpl; own && completed {
+			newer := true
+			cn := uidNum(conf)
+			for _, c := range listed {
+				if uidNum(c) > cn {
+					newer = false
+				}
+			}
+			if odAfter := after.S.Objs[odKey]; newer && odAfter != nil && collisionCount(odAfter.Content) > collisionCount(od) {
+				bad("spurious-collision-bump", "create of %s met the deployment's own ObjectSet for this template, created after every ObjectSet the pass listed (slow cache), but the collision counter was bumped from %d to %d", r.Key.Name, collisionCount(od), collisionCount(odAfter.Content))
+			}
+		}
 		if legit {
 			continue
 		}
@@ -181,6 +198,12 @@ func Check(before *world.World, ev world.Event, pass *world.Pass, after *world.W
 		}
 	}
 	return out
+}
+
+func uidNum(c map[string]any) int64 {
+	var n int64
+	fmt.Sscanf(kmodel.UID(c), "uid-%d", &n)
+	return n
 }
 
 func markFresh(w *world.World, p *world.Pass) {
